@@ -384,7 +384,13 @@ func (rm *RequestManager) validateRequest(requestID graphsync.RequestID, p peer.
 	if err != nil {
 		return gsmsg.GraphSyncRequest{}, hooks.RequestResult{}, nil, err
 	}
-	_, err = ipld.Encode(selectorSpec, dagcbor.Encode)
+	encodedSelector, err := ipld.Encode(selectorSpec, dagcbor.Encode)
+	if err != nil {
+		return gsmsg.GraphSyncRequest{}, hooks.RequestResult{}, nil, err
+	}
+	// traverse the selector in the form the responder decodes from the wire
+	// (dag-cbor orders map keys), so both peers visit links in the same order
+	selectorSpec, err = ipld.Decode(encodedSelector, dagcbor.Decode)
 	if err != nil {
 		return gsmsg.GraphSyncRequest{}, hooks.RequestResult{}, nil, err
 	}
